@@ -60,6 +60,9 @@ func (e *GRPCErrorExpr) Finalize(a *GRPCEndpointExpr) {
 
 // Dup creates a copy of the error expression.
 func (e *GRPCErrorExpr) Dup() *GRPCErrorExpr {
+	// API level responses are not walked by the engine: make sure the response
+	// is initialized before it is copied.
+	e.Response.Prepare()
 	return &GRPCErrorExpr{
 		ErrorExpr: e.ErrorExpr,
 		Name:      e.Name,
